@@ -234,7 +234,7 @@ fn c10_eval(
 }
 
 fn swap_attrs(sim_model: &Model, out: &Outcome, pair: usize) -> Option<(u128, u128)> {
-    let p = sim_model.pairs.get(pair)?;
+    let p = sim_model.std_pair(pair)?;
     let attrs = wasm_attrs(out.responses(), &p.addr, "swap");
     if attrs.len() != 1 {
         return None;
@@ -246,7 +246,7 @@ fn swap_attrs(sim_model: &Model, out: &Outcome, pair: usize) -> Option<(u128, u1
 }
 
 fn decimals_for(model: &Model, pre: &PreObs, g: &GuardedSwap) -> Option<(u8, u8)> {
-    let p = model.pairs.get(g.pair)?;
+    let p = model.std_pair(g.pair)?;
     let dec = pre.pair_decimals.get(&g.pair)?;
     let ko = model.asset_key(&g.offer.asset)?;
     let oi = p.index_of_key(&ko)?;
@@ -277,7 +277,7 @@ pub fn run(ctx: &Ctx, cov: &mut Cover) {
         ..
     } = &ctx.ev.op
     {
-        if let Some(p) = ctx.model.pairs.get(*pair) {
+        if let Some(p) = ctx.model.std_pair(*pair) {
             let r = [ctx.view.pre(&p.keys[0], &p.addr), ctx.view.pre(&p.keys[1], &p.addr)];
             if let Some(d) = deposits_in_pair_order(ctx.model, p, assets) {
                 c15_eval(cov, ctx.ev.seq, p.kind(), t, d, r, true, false);
@@ -413,7 +413,7 @@ pub fn differential(sim: &mut Sim, ev: &Event, sender: &str, pre: &PreObs, cov: 
         ..
     } = &ev.op
     {
-        let p = match sim.model.pairs.get(*pair) {
+        let p = match sim.model.std_pair(*pair) {
             Some(p) => p.clone(),
             None => return,
         };
